@@ -638,7 +638,7 @@ theorem tinv_step {fp : FdlParams} (hfp : FpOk fp) {occ0 : List Nat} {g g' : G} 
           exact tinv_quiet _ hT (by intro _ _ h; cases h) rfl (open_set hT.open_ hk)
             (occAll_congr (occupied_set _ hk) (by simp))
   | reply a t' =>
-    rcases reply_cases hI h with hdel | ⟨_, _, _, _, _, _, _, _, rfl⟩
+    rcases reply_cases hI h with hdel | ⟨_, _, _, _, _, _, _, rfl⟩
     · obtain ⟨index, i, p, p', ev, ho, hcy, hc, hpa, hal, hspec, rfl⟩ := hdel
       have hi := (curSlot_spec hc).2.2.1
       have hocc := occupied_set g.m.slots (q := p') hi
